@@ -60,6 +60,10 @@ CHECKS = {
    technique="symbolic execution (z3-backed SymFile behind the real DataIO, z3 model of struct, symbolic ASCII/hex parsing) of Elf(), HEXline and SRECline; per path SMT proofs that every reported attribute equals an independent gABI / record-format locator and that acceptance <=> well-formed and checksum correct",
    text="Bounded model checking: for each ELF case (class x byte order x 0..2 program headers x 0..2 section headers) all values of every non-steering header/table byte are covered; each path proves all Ehdr/Phdr/Shdr fields, section names, the entry point and getfileoffset(symbolic address) equal to the reference; for Intel-HEX and S-record lines every character is symbolic and acceptance/decoded fields are proven against the record specification.",
    note="trusted: z3, symx + symstruct models (validated by concrete re-execution of path models), the reference locators; PE/Mach-O/COFF field locations are outside (only totality/magic is covered by C20); known finding: S-records with a wrong checksum are accepted"),
+ "C15": dict(level="model_checking", engine="E2", design="DESIGN.md section 4 C15",
+   technique="symbolic execution (z3-backed SymFile, struct model) of Elf(), Elf.loadsegment, the linux32/linux64 OS loaders and MemoryMap on synthesised ELF images with symbolic segment geometry (p_offset, p_vaddr, p_filesz, p_memsz) and symbolic payload; per path SMT proof that the memory byte at a quantified address equals the file byte (0 beyond p_filesz), pc == e_entry, and instruction fetch at the entry decodes the file's bytes",
+   text="Bounded model checking of the loader: every (offset, vaddr, filesz, memsz) combination in the stated windows and every payload is covered per page size (16/64/4096) for one segment and two segments, on x86-64 and i386; each path proves the memory image byte-for-byte against the file mapping through a universally quantified in-segment address. Raw (shellcode) images likewise.",
+   note="trusted: z3, symx/symstruct models (validated by concrete re-execution of path models); outside: PE / Mach-O / HEX / SREC loaders, relocation slots and dynamic linking, TLS, stack, ASLR, unloadable images (negative page-aligned file offset)"),
 }
 
 NA_REASON = "check not built yet (construction in progress)"
